@@ -271,14 +271,175 @@ Theorem %s_api_stream_product_lists : forall c id h cn v,
 Proof. exact go_stream_product_lists. Qed.
 Print Assumptions %s_api_stream_product_lists.
 '''
+A['connect'] = '''(* NewRegisterApi of the translated source against the model's connect: ping, then the device id, an
+   object iff both succeed and the id is a known product with a register list -- then product = id and
+   registers = the list of that id; a fresh driver has never sent (clock flag true) *)
+Theorem %s_api_NewRegisterApi : forall c v hist cn,
+  connect_rel (go_NewRegisterApi tt c (mkA (mkD v true) hist cn)) (connect c v) hist cn.
+Proof. exact go_NewRegisterApi_refines. Qed.
+Print Assumptions %s_api_NewRegisterApi.
+'''
 aplan = {
+    'C11': ['connect'],
     'C05': ['wrapped'],
     'C09': ['num', 'text', 'enum', 'fl', 'fl_bits'],
     'C10': ['stream'],
     'C15': ['fl', 'fl_bits'],
 }
+rhdr = '''(* %s -- the property's anchored source (veregister/registerList.go, filter.go) translated on every run into
+   Gen/RegImpl.v and proved equal to the four-sequence model Tables/RegList.v (tie T-gen).  Only statements,
+   `exact` and Print Assumptions. *)
+From Coq Require Import Strings.Byte.
+From GV Require Import Vedirect.DrvSem Tables.RegSem Gen.RegImpl Tables.RegListFacts Tables.RegRefine.
+Import ListNotations.
+Local Open Scope Z_scope.
+
+'''
+G = {}
+G['len'] = '''Theorem %s_reg_Len : forall rl, go_Len rl = (DVal (Z.of_nat (rl_len rl)), rl).
+Proof. exact go_Len_spec. Qed.
+Print Assumptions %s_reg_Len.
+'''
+G['append'] = '''Theorem %s_reg_AppendNumber : forall rs rl, go_AppendNumberRegisterStruct rs rl = (DVal tt, rl_step rl (OAppendNumbers rs)).
+Proof. exact go_AppendNumber_spec. Qed.
+Print Assumptions %s_reg_AppendNumber.
+
+Theorem %s_reg_AppendText : forall rs rl, go_AppendTextRegisterStruct rs rl = (DVal tt, rl_step rl (OAppendTexts rs)).
+Proof. exact go_AppendText_spec. Qed.
+Print Assumptions %s_reg_AppendText.
+
+Theorem %s_reg_AppendEnum : forall rs rl, go_AppendEnumRegisterStruct rs rl = (DVal tt, rl_step rl (OAppendEnums rs)).
+Proof. exact go_AppendEnum_spec. Qed.
+Print Assumptions %s_reg_AppendEnum.
+
+Theorem %s_reg_AppendFieldList : forall rs rl, go_AppendFieldListRegisterStruct rs rl = (DVal tt, rl_step rl (OAppendFieldLists rs)).
+Proof. exact go_AppendFieldList_spec. Qed.
+Print Assumptions %s_reg_AppendFieldList.
+'''
+G['filter'] = '''(* the generic filter keeps exactly the elements satisfying the predicate, in their order *)
+Theorem %s_reg_filterRegisters : forall inp f p s, pure_pred f p ->
+  go_filterRegisters inp f s = (DVal (filter p inp), s).
+Proof. exact go_filterRegisters_spec. Qed.
+Print Assumptions %s_reg_filterRegisters.
+
+Theorem %s_reg_FilterRegister : forall f p rl, pure_pred f p ->
+  go_FilterRegister f rl = (DVal tt, rl_filter p rl).
+Proof. exact go_FilterRegister_spec. Qed.
+Print Assumptions %s_reg_FilterRegister.
+
+(* name filters drop exactly the named registers, of every kind *)
+Theorem %s_reg_FilterByName : forall names rl,
+  go_FilterByName (map list_byte_of_string names) rl = (DVal tt, rl_step rl (OFilterByName names)).
+Proof. exact go_FilterByName_spec. Qed.
+Print Assumptions %s_reg_FilterByName.
+'''
+G['get'] = '''Theorem %s_reg_GetRegisters : forall rl, go_GetRegisters rl = (DVal (rl_get_registers rl), rl).
+Proof. exact go_GetRegisters_spec. Qed.
+Print Assumptions %s_reg_GetRegisters.
+'''
+G['history'] = '''(* the property on the translated source: after ANY history of append and filter operations the list is the
+   model's list (C16_history: four plain sequences), its length the total count, the combined view the
+   stable sort -- and GetRegisters/Len leave the list as it is *)
+Theorem %s_reg_history : forall ops rl, go_ops ops rl = (DVal tt, fold_left rl_step ops rl).
+Proof. exact go_history. Qed.
+Print Assumptions %s_reg_history.
+
+Theorem %s_reg_history_view : forall ops,
+  let rl := fold_left rl_step ops rl_empty in
+  bind (go_ops ops) (fun _ => bind go_Len (fun n => bind go_GetRegisters (fun l => ret (n, l)))) rl_empty
+  = (DVal (Z.of_nat (rl_len rl), rl_get_registers rl), rl).
+Proof. exact go_history_view. Qed.
+Print Assumptions %s_reg_history_view.
+'''
+gplan = {'C16': ['len', 'append', 'filter', 'get', 'history'], 'C12': ['filter']}
+ehdr = '''(* %s -- every NewEnum / NewFieldList of package veconst translated on every run into Gen/EnumImpl.v and
+   proved equal to the model of Tables/Enum.v for every integer (tie T-gen; the typed constructor New is the
+   regenerated observation of all 256 bytes).  Only statements, `exact` and Print Assumptions. *)
+From GV Require Import Vedirect.DrvSem Tables.EnumSem Gen.EnumImpl Tables.EnumRefine.
+Import ListNotations.
+Local Open Scope Z_scope.
+
+'''
+E = {}
+E['enum'] = '''Theorem %s_src_all_new_enum :
+  Forall (fun p => forall v s, snd p v s = (DVal (new_enum_model (fst p) v), s)) all_new_enum.
+Proof. exact all_new_enum_refine. Qed.
+Print Assumptions %s_src_all_new_enum.
+
+Theorem %s_src_all_new_enum_complete :
+  forallb (fun e => existsb (String.eqb (e_name e)) (map fst all_new_enum)) obs_enums = true.
+Proof. exact all_new_enum_complete. Qed.
+Print Assumptions %s_src_all_new_enum_complete.
+
+(* the property on the translated source: for every enumeration and EVERY integer v construction succeeds iff
+   v is a key of the index-to-name map -- then index v and the mapped name -- and otherwise ErrInvalidEnumIdx *)
+Theorem %s_src_new_enum_iff : forall name f, In (name, f) all_new_enum -> forall e, enum_of name = Some e -> forall v s,
+  match assoc v (e_map e) with
+  | Some n => 0 <= v <= 255 -> f v s = (DVal ((v, n), None), s)
+  | None => f v s = (DVal ((0, EmptyString), Some EInvalidEnumIdx), s)
+  end.
+Proof. exact src_new_enum_iff. Qed.
+Print Assumptions %s_src_new_enum_iff.
+'''
+E['fl'] = '''Theorem %s_src_all_new_fieldlist :
+  Forall (fun p => forall v s, snd p v s = (DVal (new_fieldlist_model (fst p) v), s)) all_new_fieldlist.
+Proof. exact all_new_fieldlist_refine. Qed.
+Print Assumptions %s_src_all_new_fieldlist.
+
+Theorem %s_src_all_new_fieldlist_complete :
+  forallb (fun f => existsb (String.eqb (f_name f)) (map fst all_new_fieldlist)) obs_fieldlists = true.
+Proof. exact all_new_fieldlist_complete. Qed.
+Print Assumptions %s_src_all_new_fieldlist_complete.
+'''
+eplan = {'C14': ['enum'], 'C15': ['fl']}
+bhdr = '''(* %s -- the advertisement handler, PKCS7Padding, bluezAddrBytes and getDeviceConfig of /repo/ble/ble.go translated
+   on every run into Gen/BleHandlerImpl.v and proved against the model Ble/Handler.v (tie T-gen).  Only statements,
+   `exact` and Print Assumptions. *)
+From GV Require Import Vedirect.DrvSem Ble.BleSem Gen.BleHandlerImpl Ble.BleHandlerRefine.
+From GV Require Ble.GoSem Gen.BleImpl Ble.Handler Ble.Aes.
+Import ListNotations.
+Local Open Scope Z_scope.
+
+'''
+B = {}
+B['all'] = '''Theorem %s_src_PKCS7Padding : forall data (bs : nat) s, (1 <= bs <= 255)%%nat ->
+  go_PKCS7Padding data (Z.of_nat bs) s = (DVal (GV.Ble.Handler.pkcs7 data bs), s).
+Proof. exact go_PKCS7Padding_spec. Qed.
+Print Assumptions %s_src_PKCS7Padding.
+
+(* the handler of the translated source, for every payload, key and configuration: what it logs -- too short,
+   bad key, the plaintext, the decoded solar-charger record or its decoding error -- is what the model computes
+   (Ble/Handler.v: AES-CTR under the device key with the nonce of bytes 5..6 over the padded bytes 8.., type 0x01
+   decoded by the translated decoder of Gen/BleImpl.v) *)
+Theorem %s_src_handle : forall c dc raw,
+  handler_rel (go_handleNewManufacturerData c dc raw [])
+              (GV.Ble.Handler.handle (GV.Ble.Aes.aes_encrypt (dc_key dc)) (List.length (dc_key dc)) raw).
+Proof. exact go_handle_refines. Qed.
+Print Assumptions %s_src_handle.
+
+(* the property on the translated source: advertisement handling never panics *)
+Theorem %s_src_handle_no_panic : forall c dc raw, fst (go_handleNewManufacturerData c dc raw []) = DVal tt.
+Proof. exact go_handle_no_panic. Qed.
+Print Assumptions %s_src_handle_no_panic.
+
+Theorem %s_src_bluezAddrBytes : forall addr s,
+  exists s', go_bluezAddrBytes addr s = (DVal (GV.Ble.Handler.bluez_addr_bytes addr), s').
+Proof. exact go_bluezAddrBytes_value. Qed.
+Print Assumptions %s_src_bluezAddrBytes.
+
+(* a device is matched to the first configuration whose MAC equals the address bytes *)
+Theorem %s_src_getDeviceConfig : forall devs dbg addr s,
+  exists s', go_getDeviceConfig (mkBle dbg devs) addr s =
+             (DVal (match GV.Ble.Handler.get_device_config (map dc_mac devs) addr with
+                    | Some i => nth_error devs i
+                    | None => None
+                    end), s').
+Proof. exact go_getDeviceConfig_spec. Qed.
+Print Assumptions %s_src_getDeviceConfig.
+'''
+bplan = {'C19': ['all']}
 names = {}
-for (pl, tbl, h, suf) in ((plan, T, hdr, 'src'), (aplan, A, ahdr, 'api')):
+for (pl, tbl, h, suf) in ((bplan, B, bhdr, 'src'), (eplan, E, ehdr, 'enum'), (plan, T, hdr, 'src'), (aplan, A, ahdr, 'api'), (gplan, G, rhdr, 'reg')):
     for pid, keys in pl.items():
         out = h % (pid + suf)
         for k in keys:
